@@ -1,0 +1,51 @@
+//go:build verif
+
+package keyper
+
+import (
+	"context"
+
+	"github.com/jackc/pgx/v4"
+	"github.com/jackc/pgx/v4/pgxpool"
+
+	"github.com/shutter-network/rolling-shutter/rolling-shutter/keyper/kprconfig"
+	"github.com/shutter-network/rolling-shutter/rolling-shutter/p2p"
+)
+
+// Verification hooks (build tag "verif"): constructors and thin wrappers that give the
+// runtime-monitoring harness access to unexported fields and methods. No behaviour is added.
+
+type VerifEonPubKeyHandler struct{ h *eonPubKeyHandler }
+
+func VerifNewEonPubKeyHandler(
+	dbpool *pgxpool.Pool,
+	config *kprconfig.Config,
+	messaging p2p.Messaging,
+	handlerFunc EonPublicKeyHandlerFunc,
+	broadcast bool,
+) *VerifEonPubKeyHandler {
+	return &VerifEonPubKeyHandler{h: &eonPubKeyHandler{
+		dbpool:             dbpool,
+		config:             config,
+		messaging:          messaging,
+		eonPubkeyHandler:   handlerFunc,
+		broadcastEonPubKey: broadcast,
+		stopOnErrors:       false,
+	}}
+}
+
+// VerifQueryAndHandle is one iteration of the polling loop.
+func (v *VerifEonPubKeyHandler) VerifQueryAndHandle(ctx context.Context) error {
+	return v.h.queryAndHandleNewEonPubKeys(ctx)
+}
+
+// VerifNewCore builds a KeyperCore around an existing pool without starting any service.
+func VerifNewCore(config *kprconfig.Config, dbpool *pgxpool.Pool) *KeyperCore {
+	return &KeyperCore{config: config, dbpool: dbpool, opts: &options{}}
+}
+
+// VerifHandleOnChainChanges exposes handleOnChainChanges (batch-config votes and block-seen
+// reports scheduled from the synced keyper sets).
+func (kpr *KeyperCore) VerifHandleOnChainChanges(ctx context.Context, tx pgx.Tx, syncBlockNumber uint64) error {
+	return kpr.handleOnChainChanges(ctx, tx, syncBlockNumber)
+}
